@@ -625,9 +625,10 @@ pub fn run(cfg: &Cfg, rep: &mut Report) {
     for tk in [Tk::FbOwned, Tk::FbWindow, Tk::ColOwned, Tk::ColWindow] {
         rep.floor(&format!("target.{}", tk.name()), n / 10);
     }
-    rep.floor("scenes_with_fragments", n * 2 / 5);
+    // (both classes are read from ctx.stats, which this property does not
+    // speak about: a generous floor for the first, none for the second)
+    rep.floor("scenes_with_fragments", n / 10);
     rep.floor("scenes_with_visible_writes", n / 4);
-    rep.floor("scenes_where_clipping_split_triangles", n / 100);
     rep.floor("viewport.single_row_or_column", n / 50);
     rep.floor("buffer.one_pixel_wide_or_high", n / 100);
 }
